@@ -308,7 +308,7 @@ def Desc.isGeneric (d : Desc) : Bool := !d.isData                    -- (no acce
 def Desc.isEmpty (d : Desc) : Bool := d.w.isNone && d.e.isNone && d.c.isNone && d.isGeneric
 
 /-- the `reject` closure / typeErrorResult(throw) -/
-def reject (throw : Bool) : M Obj Bool := if throw then M.throw .type else pure false
+def reject (throw : Bool) : M Obj Bool := fun o => if throw then .err .type o else .ok false o
 
 /-- objectDefineOwnProperty (object_class.go:312), data properties and data/generic descriptors -/
 def objectDefineOwnProperty (E : Env) (k : Key) (d : Desc) (throw : Bool) : M Obj Bool := fun o =>
@@ -611,16 +611,18 @@ inductive CArg where
   | arr (es : List (Option Val))
 deriving DecidableEq, Repr
 
+/-- builtinArrayConcat: what one item appends (`valueArray = append(valueArray, Value{})` for an absent index) -/
+def concatItem : CArg → List (Option Val)
+  | .v x => [some x]
+  | .arr es => es.map fun e => some (e.getD .undef)
+
 /-- builtinArrayConcat (builtin_array.go:64) -/
 def concat (items : List CArg) : M σ Ret := fun s =>
   let thisPart : List (Option Val) :=
     if O.isArr s then
       (List.range (O.len s)).map fun index => if O.has s index then some (O.get s index) else some .undef
     else [some .recv]
-  let rest : List (Option Val) := items.flatMap fun item =>
-    match item with
-    | .v x => [some x]
-    | .arr es => es.map fun e => match e with | some x => some x | none => some .undef
+  let rest : List (Option Val) := items.flatMap concatItem
   .ok (Ret.arr (thisPart ++ rest)) s
 
 /-- builtinArraySplice (builtin_array.go:166) -/
